@@ -688,7 +688,13 @@ fn start_monitor(run: &'static Run) {
         loop {
             std::thread::sleep(std::time::Duration::from_millis(500));
             for s in oracle::stall::scan() {
-                let small = s.input.len() <= SMALL_INPUT;
+                let small = s.full_len <= SMALL_INPUT;
+                if !small {
+                    eprintln!("c01: stall monitor: a call on a {}-byte input has used {:.0}s CPU without returning (no bound is stated for inputs > 64 KiB): inconclusive", s.full_len, s.cpu_s);
+                    run.inconclusive("a call on an input > 64 KiB did not return within 600 s CPU");
+                    run.note(format!("stalled big call: target {} entry {} opt {} input {} bytes starting {:?}", s.target, s.entry.name(), s.opt, s.full_len, text_preview(&s.input)));
+                    finish(run, Finish::new("run ended by the stall monitor").min_nontrivial(usize::MAX));
+                }
                 eprintln!(
                     "c01: stall monitor: call has used {:.1}s CPU without returning: target {} entry {} opt {} input {} bytes: {:?}",
                     s.cpu_s,
@@ -769,6 +775,15 @@ fn main() {
     for (i, d) in targets::OPTVEC_DESC.iter().enumerate() {
         run.observe("option_vectors", &format!("{i}: {d}"));
     }
+
+    // ---- 4 (run first, while this process is still small: every child is a fork of it).
+    // Child-process probes, release profile: stack / abort verdicts for the pathological inputs
+    let pathos = std::sync::Arc::new(patho_list(tier));
+    let exe = std::env::current_exe().expect("current_exe");
+    if part_on(4) {
+        run_probes(run, &exe, "release", &pathos, tier);
+    }
+    progress(run, "part 4 (release child probes) done");
 
     // ---- 1. exhaustive token strings x entry points x option vectors 0..4 x the nine DESIGN targets
     let max_len = tier.pick(3, 4);
@@ -853,7 +868,6 @@ fn main() {
     }
     run.count("corpus/total_documents", corpus.len() as u64);
     let corpus = std::sync::Arc::new(corpus);
-    let pathos = std::sync::Arc::new(patho_list(tier));
 
     // ---- 5 (thorough; runs beside parts 2-4, in its own processes): dev profile, sanitizers
     let side = if tier == Tier::Thorough && part_on(5) {
@@ -1056,6 +1070,7 @@ fn main() {
             run.eval();
             judge(run, &out, j.t.name(), j.e, j.opt, &j.p.bytes, Some(j.p), j.p.family);
             run.count(&format!("pathological_calls/{}", j.p.family), 1);
+            run.count(&format!("pathological_cpu_ms/{}", j.p.family), (out.cpu_s * 1e3) as u64);
             run.nontrivial(fnv_parts(&[b"patho", j.p.shape.as_bytes(), &j.p.param.to_le_bytes(), j.t.name().as_bytes(), j.e.name().as_bytes(), &[j.opt as u8]]));
             if j.p.shape == "complex-key" && j.t.name() == "Val" && j.e == Entry::FromStr && j.opt == 0 {
                 run.max(&format!("cpu/complex_key_nest_ms/depth_{:04}", j.p.param), (out.cpu_s * 1e3) as u64);
@@ -1069,13 +1084,6 @@ fn main() {
         });
     }
     progress(run, "part 3 done");
-
-    // ---- 4. child-process probes, release profile
-    let exe = std::env::current_exe().expect("current_exe");
-    if part_on(4) {
-        run_probes(run, &exe, "release", &pathos, tier);
-    }
-    progress(run, "part 4 (release child probes) done");
 
     let mut fin_tools: Vec<String> = Vec::new();
     if tier == Tier::Thorough && part_on(4) {
